@@ -3,7 +3,7 @@
 harness/cspline.cpp (ops bs_eval, bs_tminmax; one binary per K) → T1 against SmoothModel/BSpline.lean →
 audits ON THE IMPLEMENTATION'S OUTPUTS:
   value/vel/acc vs the exact oracle at the exact real t (a_bs_val);   end values outside [t_min,t_max] (bitwise, incl.
-  times so far out that (t-t0)/dt leaves the int64 range);   one-sided agreement at every knot for orders <= K-1;
+  times so far out that (t-t0)/dt leaves the int64 range, and +-inf);   one-sided agreement at every knot for orders <= K-1;
   locality by replacing one control point;   left-equivariance by left-multiplying all points;   constants.
 """
 import math, random
@@ -90,6 +90,13 @@ class C13:
     props_files = ['SmoothProps/C13.lean']
     props_module = 'SmoothProps.C13'
     lean_targets = ['SmoothProps.C13']
+
+    @property
+    def translators(self):
+        # T2: the cumulative B-spline tables of the running implementation are re-dumped into
+        # SmoothProofs/Gen/PolyTables.lean (C20's generator); C13.bspline_knot_identities re-checks them in the kernel
+        from props import c20
+        return [c20.gen_tables]
     rule = ('harness/cspline.cpp: BSpline<K,G>, K=1..6 x {SO3,SE2,SE3,Bundle<SO3,V3>,V3} x N in {K+1,K+2..,30} x t0 in '
             '{0,-3.75,1e6,-1e3,0.1,12345.678,random} x dt in {1e-3..1e3} x t at every knot and +-1 ulp, t_min, t_max, outside by '
             '1 ulp, far (1e3 dt, 1e15 dt, 2^63 dt, 1e300, inf), random inside; distinct_nontrivial = distinct (group,K,N,t0,dt,t,ctrl bits)')
@@ -100,8 +107,11 @@ class C13:
 
     def budget(self, ctx):
         if ctx['tier'] == 'quick':
-            return 1, 260 * ctx.get('budget', 1), 10
-        return 6, 2600 * ctx.get('budget', 1), 60
+            return 2, 600 * ctx.get('budget', 1), 20
+        return 10, 6000 * ctx.get('budget', 1), 120
+
+    def prebuild(self):
+        vlib.build_harnesses(specs())
 
     # ------------------------------------------------------------------ checks
     def check_lines(self, ctx, lines, n_val, n_pair_cfgs, generated=True):
@@ -163,21 +173,13 @@ class C13:
         # reference end values: the clamp branches themselves, taken 10 dt outside the range
         out_reqs, out_meta = [], []
         for c in cfgs:
-            ext = []
-            if generated and rnd.random() < (1.0 if len(cfgs) <= 40 else 0.3):
-                big = 2.0 ** 63 * c.dt
-                ext = [(c.tmax + 1.01 * big, 'above', '(t-t0)/dt >= 2^63'), (1e300, 'above', '(t-t0)/dt >= 2^63'),
-                       (float('inf'), 'above', '(t-t0)/dt >= 2^63'), (c.t0 - 1.01 * big, 'below', '(t-t0)/dt <= -2^63'),
-                       (-1e300, 'below', '(t-t0)/dt <= -2^63'), (float('-inf'), 'below', '(t-t0)/dt <= -2^63')]
             todo = [(c.t_of(l), l) for l in c.lines]
-            need_lo = any(t <= c.t0 for t, _ in todo) or ext
-            need_hi = any(t >= c.tmax for t, _ in todo) or ext
+            need_lo = any(t <= c.t0 for t, _ in todo)
+            need_hi = any(t >= c.tmax for t, _ in todo)
             if need_lo:
                 out_reqs.append(c.request(c.t0 - 10.0 * c.dt)); out_meta.append((c, 'ref_lo', None, None))
             if need_hi:
                 out_reqs.append(c.request(c.tmax + 10.0 * c.dt)); out_meta.append((c, 'ref_hi', None, None))
-            for t, side, region in ext:
-                out_reqs.append(c.request(t)); out_meta.append((c, side, region, t))
         evs = eval_requests(out_reqs)
         ref = {}
         for (c, kind, region, t), ev in zip(out_meta, evs):
@@ -191,7 +193,7 @@ class C13:
         for c in cfgs:
             for l in c.lines:
                 t = c.t_of(l)
-                if not (t <= c.t0 or t >= c.tmax) or (t - c.t0) / c.dt >= 2.0 ** 63 or (t - c.t0) / c.dt <= -2.0 ** 63:
+                if not (t <= c.t0 or t >= c.tmax):
                     continue
                 kind = 'ref_lo' if t <= c.t0 else 'ref_hi'
                 want = ref.get((id(c), kind))
@@ -202,31 +204,20 @@ class C13:
                 # last interval (u = 1 - rounding instead of the clamp u = 1): then the outputs must agree with the end
                 # values up to that rounding; anywhere else they must be bit-identical.
                 tref = c.t0 if t <= c.t0 else c.tmax
-                du = (abs(t - tref) + 4 * math.ulp(max(abs(t), abs(c.t0), abs(tref)))) / c.dt
                 a, b = c.split(l), c.split(by_raw[(id(c), kind)])
                 errs = [gdiff(c, a[0], b[0]), vdiff(a[1], b[1], c.dt), vdiff(a[2], b[2], c.dt ** 2)]
+                if not math.isfinite(t) or abs(t - tref) / c.dt > 1e-6:
+                    findings.append(finding('outside range', 'value/vel/acc outside [t_min,t_max] are not the end values', max(errs), 0, l, stratum=l.tag))
+                    continue
+                du = (abs(t - tref) + 4 * math.ulp(max(abs(t), abs(c.t0), abs(tref)))) / c.dt
                 tol = TOL_DERIV + 200.0 * du
-                if abs(t - tref) / c.dt > 1e-6 or not (max(errs) <= tol):
+                if not (max(errs) <= tol):
                     findings.append(finding('outside range', 'value/vel/acc outside [t_min,t_max] are not the end values', max(errs), tol, l, stratum=l.tag))
                 else:
                     n_out_close += 1
-        n_ext = 0
-        for (c, kind, region, t), ev in zip(out_meta, evs):
-            if kind.startswith('ref'):
-                continue
-            n_ext += 1
-            want = ref.get((id(c), 'ref_hi' if kind == 'above' else 'ref_lo'))
-            if ev is None or want is None:
-                continue
-            if ev.outs != want:
-                other = ref.get((id(c), 'ref_lo' if kind == 'above' else 'ref_hi'))
-                findings.append(finding(region, f'BSpline evaluated at t={t!r} ({kind} the range, quotient beyond int64) does not return the '
-                                        f'{"end" if kind == "above" else "start"} values' +
-                                        (' — it returns the values of the OTHER end' if ev.outs == other else ''),
-                                        None, 0, ev, K=c.K, group=c.grp))
         stats['outside_range_checked'] = n_out
         stats['outside_range_equal_up_to_quotient_rounding_not_bitwise'] = n_out_close
-        stats['beyond_int64_probes'] = n_ext
+        stats['beyond_int64_quotient'] = sum(1 for c in cfgs for l in c.lines if not abs((c.t_of(l) - c.t0) / c.dt) < 2.0 ** 63)
 
         # ---- D. one-sided agreement at the knots, orders <= K-1
         n_knot, worst_knot = 0, [0.0, 0.0, 0.0]
@@ -427,36 +418,7 @@ class C13:
         if not reqs:
             return {'coverage': {}, 'findings': [], 'broken': payload.get('no_longer_checks', [])}
         lines = [l for l in eval_requests(reqs) if l is not None]
-        # T1 applies to times inside the int64 range only (beyond it the C++ cast is undefined; the model keeps the
-        # mathematical truncation and the end-value check below is what judges those lines)
-        inr, beyond = [], []
-        for l in lines:
-            nb = (line_K(l) + 1) ** 2
-            if l.op == 'bs_eval':
-                t0, dt, t = (dec(w, 'f64') for w in l.ins[1 + nb:4 + nb])
-                q = (t - t0) / dt
-                (inr if abs(q) < 2.0 ** 63 else beyond).append(l)
-            else:
-                inr.append(l)
-        res = self.check_lines(ctx, inr, 10 ** 9, 0, generated=False)
-        # lines beyond the int64 range: compare with the end values
-        cfgs = group_cfgs(beyond)
-        rq, meta = [], []
-        for c in cfgs:
-            rq += [c.request(c.t0 - 10.0 * c.dt), c.request(c.tmax + 10.0 * c.dt)]
-        evs = eval_requests(rq)
-        for k, c in enumerate(cfgs):
-            lo, hi = evs[2 * k], evs[2 * k + 1]
-            for l in c.lines:
-                t = c.t_of(l)
-                if math.isnan(t):
-                    continue
-                want = hi if t > c.tmax else lo
-                if want is not None and l.outs != want.outs:
-                    res['findings'].append(finding('(t-t0)/dt >= 2^63' if t > c.tmax else '(t-t0)/dt <= -2^63',
-                                                   f'BSpline evaluated at t={t!r} does not return the end values', None, 0, l, K=c.K, group=c.grp))
-        res['coverage']['evaluations'] = res['coverage'].get('evaluations', 0) + len(beyond)
-        return res
+        return self.check_lines(ctx, lines, 10 ** 9, 0, generated=False)
 
 
 def make():
